@@ -2,29 +2,42 @@ UNITS = {
     "vswitch": dict(pkg="./pkg/vswitch", tags="default_build"),
     # same package built with the race detector; used for the concurrent rounds only
     "vswitch_race": dict(pkg="./pkg/vswitch", tags="default_build", race=True, shrinktime="10s"),
+    # the pod controller's annotation parser (a caller of GetOne, anchor of C17)
+    "c17_podctl": dict(pkg="./pkg/controller/pod", tags="default_build"),
 }
 
 PROPS = {
     "C17": dict(
         level="exploration",
-        technique="property-based testing (rapid): generated GetOne/Block/clock/cloud histories against a reference cache view and a per-policy validity predicate; caller-slice aliasing check; concurrent rounds under the race detector",
+        technique="property-based testing (rapid): generated GetOne/Block/clock/cloud histories against a reference cache view and a per-policy validity predicate; caller-slice aliasing check; concurrent rounds under the race detector; harness-owned schedules (the fake describe is a gate: held lookups, cancelled waiters, Block, release order) followed by exact sequential probes; the pod controller's real pod-networks annotation path (decoder + ReconcilePod.ParsePodNetworksFromAnnotation + real SwitchPool) checked per network against its own list and policy",
         rule="histories of GetOne/Block/advance-clock/cloud-change over 1-3 caller-owned candidate lists (0-8 ids, duplicates, unknown ids) drawn by rapid; "
              "non-trivial = some GetOne saw >= 2 distinct eligible candidates, or a candidate with a live blocked entry, or took the zone fallback; "
-             "concurrent rounds: non-trivial = >= 2 goroutines overlapped on one shared slice with >= 2 possibly eligible candidates or a Block; distinct = distinct scenario hash",
+             "concurrent rounds: non-trivial = >= 2 goroutines overlapped on one shared slice with >= 2 possibly eligible candidates or a Block; "
+             "gated schedules (scripts of start-selection[+Block] / cancel-context / release-held-describe over 1-3 vSwitches, describe calls held by a generated arrival pattern): non-trivial = a context was cancelled while a describe was held, or a Block completed while a describe was still held; "
+             "pod-networks histories (pods with 1-4 networks, each with its own candidate list and policy ordered/most/random/unset, free-count changes, Block of a vSwitch a previous pod got): non-trivial = a pod with >= 2 networks one of which has >= 2 distinct eligible candidates; "
+             "distinct = distinct scenario hash",
         assumptions=[
             "client.VPC is a fake that returns VSwitchId equal to the requested id, a fixed zone per id and the current free count, or an error",
             "the cache clock is a fake (cache.NewLRUExpireCacheWithClock); the TTL is an odd number of half units and the clock moves by whole units, so the instant now == expiry is never sampled",
             "cache capacity (128) is far above the id universe (<= 9): LRU eviction of a blocked entry is out of scope",
+            "a held fake describe returns the context's error when the context it was called with is cancelled (as an SDK call does)",
+            "pod-networks: a network that names no policy is held to 'ordered', the documented default of VSwitchSelectOptions (+kubebuilder:default:=ordered); the pod harness uses NewSwitchPool(100, 10m) with the real clock, nothing expires within a case",
         ],
-        level_text="generated histories and goroutine rounds against an independent reference view; exploration, not proof",
+        level_text="generated histories, goroutine rounds, harness-owned lookup schedules with cancellation, and multi-network pod annotations through the real pod-controller parser, all against an independent reference view; exploration, not proof",
         level_note="sequential oracle is exact (first eligible / maximal cached free count / any eligible; error iff none; blocked until expiry). "
                    "Under concurrency only interleaving-independent consequences are demanded (possibly/certainly eligible sets from happens-before stamps) plus the race detector; "
                    "interleavings are sampled (start barrier, Gosched jitter inside describe and before calls), not enumerated. "
                    "Guards (active only while listed in known_findings.json): C17-random-shuffle = policy random gets a private copy of the shared slice and its aliasing check is skipped; "
                    "C17-stale-fill = for an id not cached at round start and blocked while another GetOne is in flight, a completed Block makes the blocked view possible rather than certain. "
+                   "Gated schedules: scripted selections are only held to interleaving-independent clauses (in list, right zone, free > 0, not handed out after a Block that had returned before the selection started); "
+                   "after all describes are released and every goroutine is joined, probes for every zone/policy are exact (ids reported exhausted stay out with the clock unchanged, and are eligible again after expiry). "
+                   "The step-settling wait only shapes which interleaving is explored, no verdict depends on it. "
+                   "Pod controller: only ParsePodNetworksFromAnnotation is driven (IgnoreZone is always false there); the PodNetworking-CR path of parse() and the node controller's caller are not. "
                    "Describe counts (single-flight) are reported as labels, not demanded: the statement does not bound them.",
         tests=[
             dict(unit="vswitch", test="TestVerifC17Select", quick=60000, thorough=2000000),
+            dict(unit="vswitch", test="TestVerifC17Gate", quick=8000, thorough=200000, shards_quick=8),
+            dict(unit="c17_podctl", test="TestVerifC17PodNetworks", quick=20000, thorough=600000),
             dict(unit="vswitch", test="TestVerifC17KnownWitnessShuffle", quick=1, thorough=1, shards=1),
             dict(unit="vswitch", test="TestVerifC17KnownWitnessStaleFill", quick=1, thorough=1, shards=1),
             # GORACE log_path is relative to the shard's working directory (.work/C17-<pid>/, removed afterwards);
